@@ -18,8 +18,11 @@ def _scrub(x):
     return x
 
 
+CURRENT_PID = None  # set by the runner: property whose known findings apply
+
+
 class Stats:
-    MAXV = 200
+    MAXV = 400
 
     def __init__(self):
         self.evals = 0          # executions of the implementation
@@ -59,11 +62,19 @@ class Stats:
     def violation(self, site, kind, case, observed=None, expected=None, detail=None):
         self.nviol += 1
         observed, expected, detail = _scrub(observed), _scrub(expected), _scrub(detail)
-        k = f"{site}|{kind}"
+        rec = {"site": site, "kind": kind, "case": case, "observed": observed, "expected": expected, "detail": detail}
+        # recorded (known) findings are capped separately, so that they can never crowd out a new violation
+        kid = None
+        if CURRENT_PID:
+            from mc import findings
+
+            f = findings.match(CURRENT_PID, rec)
+            kid = f["id"] if f else None
+        rec["known"] = kid
+        k = f"{site}|{kind}|{kid}"
         self._cls[k] = self._cls.get(k, 0) + 1
         if (self._cls[k] <= 25 or getattr(Stats, "NOCAP", False)) and len(self.violations) < self.MAXV:
-            self.violations.append({"site": site, "kind": kind, "case": case, "observed": observed,
-                                    "expected": expected, "detail": detail})
+            self.violations.append(rec)
 
     def cap(self, what, **kw):
         d = {"cap": what}
@@ -98,7 +109,7 @@ class Stats:
             self.sample(s, cap=6)
         self.nviol += o.nviol
         for v in o.violations:
-            k = f"{v.get('site')}|{v.get('kind')}"
+            k = f"{v.get('site')}|{v.get('kind')}|{v.get('known')}"
             self._cls[k] = self._cls.get(k, 0) + 1
             if self._cls[k] <= 300:
                 self.violations.append(v)
